@@ -79,7 +79,11 @@ def oracle(state, t):
     s, st = state
     op = t[0]
     if op == "new":
-        return (unhx(t[1]), False), "v"
+        d, blk = unhx(t[1]), int(t[2])
+        # sizes are 32 bits wide: a non-empty string whose len + 1 + malloc_block (or malloc_block + 1) does not fit is refused
+        if d and (blk >= 0xFFFFFFFF or len(d) >= 0xFFFFFFFF or (blk < len(d) and len(d) + 1 + blk >= 1 << 32)):
+            return state, "null"
+        return (d, False), "v"
     if op == "sta":
         return (unhx(t[1]), True), "v"
     if op == "dup":
@@ -318,7 +322,9 @@ def gen_buffer_seq(r, inject=False):
         op = r.choice(BUF_OPS)
         if op == "new":
             d = gen_data(r)
-            ln = "new %s %d" % (hx(d), r.choice([0, 1, 2, 5, 20, 100, len(d), len(d) + 1]))
+            # 4294967295: malloc_block + 1 wraps to 0 -> NULL for non-empty data (no other huge value: a block of
+            # 4 GiB - k would really be allocated)
+            ln = "new %s %d" % (hx(d), r.choice([0, 1, 2, 5, 20, 100, len(d), len(d) + 1, 4294967295]))
         elif op == "sta":
             if not r.chance(1, 3):
                 continue
